@@ -42,9 +42,10 @@ structure DState where
   w : World := {}
   accept : Option (List Str) := none      -- `none`: every time value is accepted
 
-def envOf (s : DState) : Env :=
-  { timeOk := fun v => match s.accept with | none => true | some l => l.contains v,
-    react := pingPong }
+def timeOkOf (s : DState) : Str → Bool :=
+  fun v => match s.accept with | none => true | some l => l.contains v
+
+def envOf (s : DState) : Env := { timeOk := timeOkOf s, react := pingPong }
 
 def decOp : List String → Option Op
   | ["q", s] => (dec s).map .queue
@@ -54,7 +55,7 @@ def decOp : List String → Option Op
   | ["loop"] => some .loop
   | _ => none
 
-def drive (s : DState) (fs : List String) : DState × String :=
+def driveWith (mkEnv : DState → Env) (s : DState) (fs : List String) : DState × String :=
   match fs with
   | ["reset"] => ({ s with w := {} }, "ok")
   | ["timeall"] => ({ s with accept := none }, "ok")
@@ -74,8 +75,10 @@ def drive (s : DState) (fs : List String) : DState × String :=
     match decOp fs with
     | none => (s, "bad-op")
     | some op =>
-      let w' := step (envOf s) s.w op
+      let w' := step (mkEnv s) s.w op
       ({ s with w := w' }, dump s.w w')
+
+def drive : DState → List String → DState × String := driveWith envOf
 
 def handler : Driver.Handler := { σ := DState, init := {}, step := drive }
 end C11
